@@ -11,3 +11,10 @@ pub fn fmt_stub(_: std::fmt::Arguments<'_>) -> String {
 pub fn rs_new() -> std::hash::RandomState {
     unsafe { std::mem::transmute([0u64; 2]) }
 }
+
+/// `core::str::count::do_count_chars` is the word-at-a-time path of `str::chars().count()` for
+/// strings of >= 32 bytes. Harnesses whose strings are shorter stub it with a function that
+/// fails if reached (so the stub cannot hide behaviour: reaching it is reported as a failure).
+pub fn do_count_chars_unreachable(_s: &str) -> usize {
+    panic!("do_count_chars reached: string of 32 bytes or more in a short-string harness")
+}
